@@ -2,7 +2,7 @@
 //@ props C15 C09
 //@ module src/tables.rs
 //@ strength complete (loop-free; every field value of the fixed-size structures, full domain)
-//@ unverified name, OS/2, post (strings, version-dependent tails), CFF2, item variation store, count >= 65536 refusals
+//@ unverified name, OS/2, post (strings, version-dependent tails), CFF2 (CFF2::write output does not parse even without a variation store - demo, no check reaches it), item variation stores beyond one region / one 8-bit sub-table, count >= 65536 refusals
 use crate::binary::write::{WriteBinary, WriteBuffer, WriteContext};
 use crate::binary::{U8, I8, U24Be};
 
@@ -147,4 +147,33 @@ fn placeholder_size() {
     let rec = TableRecord { table_tag: kani::any(), checksum: kani::any(), offset: kani::any(), length: kani::any() };
     let r = w2.write_placeholder(small, &rec);
     assert!(r.is_err(), "a value larger than its placeholder is refused");
+}
+
+// ---- item variation store (OpenType "Item variation store header": format u16, variationRegionListOffset Offset32,
+//      itemVariationDataCount u16, itemVariationDataOffsets Offset32[]; all offsets from the start of the store) ----------
+//@ harness ivs_roundtrip kind=bounded:1region_1subtable fns=ItemVariationStore::write,ItemVariationStore::read,VariationRegionList::write,VariationRegionList::read,ItemVariationData::write,ItemVariationData::read timeout=900
+#[kani::proof]
+#[kani::unwind(33)]
+fn ivs_roundtrip() {
+    use crate::tables::variable_fonts::ItemVariationStore;
+    // canonical layout of a store with one region on one axis and one delta-set sub-table holding one 8-bit delta;
+    // the region coordinates and the delta are symbolic
+    let coords: [u8; 6] = kani::any();
+    let delta: u8 = kani::any();
+    let mut b = [0u8; 31];
+    b[1] = 1;                 // format
+    b[5] = 12;                // variationRegionListOffset
+    b[7] = 1;                 // itemVariationDataCount
+    b[11] = 22;               // itemVariationDataOffsets[0]
+    b[13] = 1; b[15] = 1;     // axisCount, regionCount
+    let mut i = 0; while i < 6 { b[16 + i] = coords[i]; i += 1; }
+    b[23] = 1;                // itemCount
+    b[27] = 1;                // regionIndexCount (wordDeltaCount = 0)
+    b[30] = delta;
+    let store = match ReadScope::new(&b).read::<ItemVariationStore<'_>>() { Ok(s) => s, Err(_) => { assert!(false, "a well-formed store parses"); return; } };
+    let mut out = WriteBuffer::new();
+    assert!(ItemVariationStore::write(&mut out, &store).is_ok());
+    let bytes = out.into_inner();
+    assert!(bytes.len() == 31, "written size");
+    let mut i = 0; while i < 31 { assert!(bytes[i] == b[i], "write(read(bytes)) == bytes"); i += 1; }
 }
